@@ -38,7 +38,7 @@ ASSUMPTIONS = ['RefCounter uses exact rationals on the float stamps actually sup
                'second evaluation restarts the count)', 'stamps are expressed in the default unit (spec.unit)']
 REAL = common.REAL_ALL
 STUBS = common.STUBS_ALL
-PROBES = ['episode_after_reset', 'gap_on_tolerance_edge', 'period_unit_differs_from_stamp_unit', 'more_than_one_bad_gap', 'offline_counter', 'tolerance_zero',
+PROBES = ['integer_stamps_above_2^53', 'episode_after_reset', 'gap_on_tolerance_edge', 'period_unit_differs_from_stamp_unit', 'more_than_one_bad_gap', 'offline_counter', 'tolerance_zero',
           'one_stamp', 'combined_class']
 INTERLEAVING_MEASURE = 'distinct gap-class sequences'
 
@@ -69,7 +69,7 @@ def gen(rng, tier):
         L = rng.randint(maxlen + 1, 12)
         longs.append([rng.choice(classes) for _ in range(L)])
     data = world.gen_trace(rng, vars_, 13)
-    t0 = rng.choice([0, 0, 5, 1000, 0.5]) if not exact else rng.choice([0, 0, 4, 1024])
+    t0 = rng.choice([0, 0, 5, 1000, 0.5]) if not exact else rng.choice([0, 0, 4, 1024, 1700000000000000000])   # epoch nanoseconds: above 2**53
     return {'period': P, 'pu': pu, 'du': du, 'tol': tol, 'exact': exact, 'vars': vars_, 'ast': ast, 'data': data,
             'maxlen': maxlen, 'classes': classes, 'longs': longs, 't0': t0,
             'online_cls': 'dt_on' if rng.random() < 0.6 else 'dt', 'offline_cls': 'dt_off' if rng.random() < 0.5 else 'dt',
@@ -114,6 +114,8 @@ def stamps_for(seq, sc):
             g = Fraction(0)
         t = t + g
         out.append(t)
+    if sc['t0'] > 2 ** 53 and any(x.denominator != 1 for x in out):
+        return None        # above 2**53 only integer stamps are exact; a float stamp there would test float rounding, not the counter
     fl = []
     for x in out:
         fl.append(int(x) if x.denominator == 1 else float(x))
@@ -170,6 +172,8 @@ def run(sc):
         if any(gap_for(c, sc) is None for c in seq):
             continue
         stamps = stamps_for(seq, sc)
+        if stamps is None:
+            continue
         want, margin_ok = ref_counts(stamps, sc)
         exact_edges = sc['exact']
         if not margin_ok and not exact_edges:
@@ -204,8 +208,8 @@ def run(sc):
                 r.probes['episode_after_reset'] += 1
                 sc2 = dict(sc, t0=sc['t0'] + (1000 if sc['exact'] else 977))
                 st2 = stamps_for(seq[k:], sc2)
-                want2, ok2 = ref_counts(st2, sc2)
-                if ok2 or sc['exact']:
+                want2, ok2 = ref_counts(st2, sc2) if st2 is not None else (None, False)
+                if st2 is not None and (ok2 or sc['exact']):
                     for i in range(len(st2)):
                         M.dt_update(mon, st2[i], [(v, data[v][i]) for v in vars_])
                         r.evals += 1
@@ -263,6 +267,8 @@ def run(sc):
             r.probes['one_stamp'] += 1
         r.probes['offline_counter'] += 1
     r.obs.append([sc['period'], sc['pu'], sc['du'], sc['tol']])
+    if sc['t0'] > 2 ** 53:
+        r.probes['integer_stamps_above_2^53'] += 1
     if (sc['du'] or 's') != sc['pu']:
         r.probes['period_unit_differs_from_stamp_unit'] += 1
     if sc['tol'] == 0.0:
